@@ -206,6 +206,12 @@ Definition comp_commit_text (sg : segmentation) : bytes * bool :=
   let '(res, en, ok) := commit_text_loop (sg_input sg) (segs_fwd sg) ([], 0, true) in
   (if en <? length (sg_input sg) then res ++ skipn en (sg_input sg) else res, ok).
 
+(** the commit text of the segments BEFORE the current (last) one: what C03
+    calls "the already confirmed text" when a candidate of the current segment
+    is selected (same per-segment rule as GetCommitText) *)
+Definition comp_confirmed_text (sg : segmentation) : bytes :=
+  fst (fst (commit_text_loop (sg_input sg) (rev (tl (sg_segs sg))) ([], 0, true))).
+
 (** [Context::GetCommitText] *)
 Definition ctx_commit_text (c : context) : bytes * bool :=
   if get_option c opt_dumb then ([], true) else comp_commit_text (cx_comp c).
